@@ -69,12 +69,12 @@ impl FeatureRewriterBuilder {
             } else {
                 Pattern::Exact(p.to_string())
             };
-            for action in &self.nodes[cursor].actions {
-                if let Action::Transition(edge) = action {
-                    if parsed == edge.pattern {
-                        cursor = edge.target;
-                        continue 'a;
-                    }
+            // Only the most recently added edge may be shared: reusing an older edge would move
+            // this rule in front of rules registered in between.
+            if let Some(Action::Transition(edge)) = self.nodes[cursor].actions.last() {
+                if parsed == edge.pattern {
+                    cursor = edge.target;
+                    continue 'a;
                 }
             }
             let target = self.nodes.len();
